@@ -3,7 +3,9 @@ import Driver.Common
 /-!
 Line-protocol driver of the `matmul` family (property C15).  Same input and the same output text as
 harness/drv_matmul.cpp (whose header documents the protocol), except that the model prints no Jacobian
-section (` ; J …`): the Jacobian is judged by the independent oracle in checks/c15.py.
+section (` ; J …`): the Jacobian is judged by the independent oracle in checks/c15.py.  The ` ; tape …` section (every
+statement an active product records: conversions, copies, one statement per result element, with symbolic gradient
+indices) IS printed and compared exactly.
 
 Besides the marshalling model (AdeptModel/Matmul.lean) the driver contains what the harness does through
 the public API to *build* the operands of a case: slicing of a parent array with `stride(b,e,s)`, `.T()`,
@@ -15,7 +17,8 @@ open Adept Adept.Blas Adept.Matmul
 namespace MatmulDrv
 
 structure St where
-  pw : Nat := 2
+  pw : Nat := 2      -- Packet<double>::size
+  pwf : Nat := 4     -- Packet<float>::size (Pf / Qf lines)
 
 /-- what the harness prints about an operand -/
 structure Desc where
@@ -40,6 +43,9 @@ structure Opd where
   desc : Desc
   kind : Kind
   act : Bool
+  grad : Grad                      -- gradient side of the operand `matmul_` receives
+  conv : List (Stmt Int) := []     -- statements `promote_array`'s conversion records (active expression / special matrix)
+  tsize : Int := 0                 -- gradient indices the converted array registers (block `T`, from offset 0)
 
 def showInts (l : List Int) : String := "[" ++ ",".intercalate (l.map toString) ++ "]"
 
@@ -114,10 +120,11 @@ def parseM (pw : Nat) (side : Buf) (h : List String) (vals : List Int) : Option 
       let ncells : Int := if empty then 0 else if ord = "r" then parent.o0 * PR else (PR * PC : Nat)
       if (vals.length : Int) ≠ ncells then none else
       let mem := memOf vals
-      let rec go (v : View2) (ops : List String) : Option (View2 × Bool) :=
+      let rec go (v : View2) (ops : List String) : Option (View2 × Nat) :=
         match ops with
-        | [] => some (v, false)
-        | ["x2"] => some (v, true)
+        | [] => some (v, 0)
+        | ["x2"] => some (v, 1)
+        | ["xs"] => some (v, 2)
         | "T" :: rest => go v.T rest
         | w :: rest =>
           match split3 "r" w, split3 "c" w with
@@ -132,12 +139,19 @@ def parseM (pw : Nat) (side : Buf) (h : List String) (vals : List Int) : Option 
           | none, none => none
       match go parent ops with
       | none => none
-      | some (v, x2) =>
+      | some (v, xk) =>
+        let x2 := xk ≠ 0
         let d := matDesc v act mem (if x2 then 2 else 1)
         if x2 then
-          some { desc := d, act := act, kind := .mat (freshMat pw v.d0 v.d1 (fun i k => 2 * mem (v.addr i k))) }
+          -- promote_array: Array<2,T,A>(2.0*view) resp. Array<2,T,A>(view+view), a fresh row-major array; active: one statement
+          -- per element, `2·view[i,k]` resp. `1·view[i,k] + 1·view[i,k]`
+          let f := freshMat pw v.d0 v.d1 (fun i k => 2 * mem (v.addr i k))
+          some { desc := d, act := act, kind := .mat f, grad := { act := act, blk := .T },
+                 conv := if act then convRecord f.v 0 v.d0 v.d1 (fun i k =>
+                           if xk = 1 then [(2, ⟨side, v.addr i k⟩)] else [(1, ⟨side, v.addr i k⟩), (1, ⟨side, v.addr i k⟩)]) else [],
+                 tsize := if act then f.v.o0 * (v.d0 : Int) else 0 }
         else
-          some { desc := d, act := act, kind := .mat { v := v, mem := mem, buf := side } }
+          some { desc := d, act := act, kind := .mat { v := v, mem := mem, buf := side }, grad := { act := act, blk := side } }
     | _, _ => none
   | _ => none
 
@@ -152,10 +166,11 @@ def parseV (side : Buf) (h : List String) (vals : List Int) : Option Opd :=
       if vals.length ≠ PN then none else
       let mem := memOf vals
       let parent : View1 := if PN = 0 then { base := 0, d := 0, o := 0 } else { base := 0, d := PN, o := 1 }
-      let rec go (v : View1) (ops : List String) : Option (View1 × Bool) :=
+      let rec go (v : View1) (ops : List String) : Option (View1 × Nat) :=
         match ops with
-        | [] => some (v, false)
-        | ["x2"] => some (v, true)
+        | [] => some (v, 0)
+        | ["x2"] => some (v, 1)
+        | ["xs"] => some (v, 2)
         | w :: rest =>
           match split3 "s" w with
           | some (b, e, s) =>
@@ -165,36 +180,45 @@ def parseV (side : Buf) (h : List String) (vals : List Int) : Option Opd :=
           | none => none
       match go parent ops with
       | none => none
-      | some (v, x2) =>
+      | some (v, xk) =>
+        let x2 := xk ≠ 0
         let d := vecDesc v act mem (if x2 then 2 else 1)
         if x2 then
           -- Array<1>(expression): fresh contiguous vector
           some { desc := d, act := act,
                  kind := .vec { v := { base := 0, d := v.d, o := 1 }, buf := .T,
-                                mem := fun p => if 0 ≤ p ∧ p < v.d then 2 * mem (v.addr p.toNat) else 0 } }
-        else some { desc := d, act := act, kind := .vec { v := v, mem := mem, buf := side } }
+                                mem := fun p => if 0 ≤ p ∧ p < v.d then 2 * mem (v.addr p.toNat) else 0 },
+                 grad := { act := act, blk := .T },
+                 conv := if act then convRecord1 0 v.d (fun (i : Nat) =>
+                           if xk = 1 then [(2, ⟨side, v.addr i⟩)] else [(1, ⟨side, v.addr i⟩), (1, ⟨side, v.addr i⟩)]) else [],
+                 tsize := if act then (v.d : Int) else 0 }
+        else some { desc := d, act := act, kind := .vec { v := v, mem := mem, buf := side }, grad := { act := act, blk := side } }
     | none => none
   | _ => none
 
-def fixedMats : List (Nat × Nat) := [(1,1), (2,3), (3,2), (3,3), (5,8), (8,5), (1,3), (3,1)]
-def fixedVecs : List Nat := [1, 2, 3, 5, 8]
+/-- the FixedArray sizes the harness instantiates (drv_matmul_fixed.h; for float: drv_matmul_flt2.cpp) -/
+def fixedMats (flt : Bool) : List (Nat × Nat) :=
+  if flt then [(2,3), (3,3), (5,8)] else [(1,1), (2,3), (3,2), (3,3), (5,8), (8,5), (1,3), (3,1)]
+def fixedVecs (flt : Bool) : List Nat := if flt then [3, 8] else [1, 2, 3, 5, 8]
 
 /-- `FM <a|p> <R> <C> : cells`, `FV <a|p> <N> : cells` (row-major contiguous, linked by promote_array) -/
-def parseF (side : Buf) (h : List String) (vals : List Int) : Option Opd :=
+def parseF (flt : Bool) (side : Buf) (h : List String) (vals : List Int) : Option Opd :=
   match h with
   | ["FM", a, r, c] =>
     match r.toNat?, c.toNat? with
     | some R, some C =>
-      if (a ≠ "a" ∧ a ≠ "p") ∨ ¬ fixedMats.contains (R, C) ∨ vals.length ≠ R * C then none else
+      if (a ≠ "a" ∧ a ≠ "p") ∨ ¬ (fixedMats flt).contains (R, C) ∨ vals.length ≠ R * C then none else
       let v : View2 := { base := 0, d0 := R, d1 := C, o0 := C, o1 := 1 }
-      some { desc := matDesc v (a = "a") (memOf vals) 1, act := a = "a", kind := .mat { v := v, mem := memOf vals, buf := side } }
+      some { desc := matDesc v (a = "a") (memOf vals) 1, act := a = "a", kind := .mat { v := v, mem := memOf vals, buf := side },
+             grad := { act := a = "a", blk := side } }
     | _, _ => none
   | ["FV", a, n] =>
     match n.toNat? with
     | some N =>
-      if (a ≠ "a" ∧ a ≠ "p") ∨ ¬ fixedVecs.contains N ∨ vals.length ≠ N then none else
+      if (a ≠ "a" ∧ a ≠ "p") ∨ ¬ (fixedVecs flt).contains N ∨ vals.length ≠ N then none else
       let v : View1 := { base := 0, d := N, o := 1 }
-      some { desc := vecDesc v (a = "a") (memOf vals) 1, act := a = "a", kind := .vec { v := v, mem := memOf vals, buf := side } }
+      some { desc := vecDesc v (a = "a") (memOf vals) 1, act := a = "a", kind := .vec { v := v, mem := memOf vals, buf := side },
+             grad := { act := a = "a", blk := side } }
     | none => none
   | _ => none
 
@@ -239,26 +263,35 @@ def Eng.cell (e : Eng) (off : Int) (i j : Nat) : Option Int :=
   | .band r kl ku => if j > i + ku ∨ i > j + kl then none else some (if r then rowIdx else colIdx)
 
 /-- which (type, activity, T / x2) variants the harness instantiates (drv_matmul_s*.cpp); others are `bad-op` there too.
-    bit 0 = T allowed, bit 1 = x2 allowed (passive only); `act` tells whether the active variant exists -/
-def variantOf : String → Option (Nat × Bool)
-  | "sq" => some (3, true) | "sqc" => some (0, false)
-  | "symL" => some (3, true) | "symU" => some (1, true)
-  | "lo" => some (1, true) | "loc" => some (0, false) | "up" => some (0, true) | "upc" => some (0, false)
-  | "b00" => some (0, false) | "b11" => some (2, true) | "b22" => some (0, false)
-  | "b20" => some (0, false) | "b02" => some (0, false) | "b12" => some (1, true)
-  | "cb00" => some (0, false) | "cb11" => some (0, false) | "cb22" => some (0, false)
-  | "cb20" => some (0, false) | "cb02" => some (0, false) | "cb12" => some (1, false)
+    bit 0 = T allowed, bit 1 = x2 allowed; first component for the passive type, second (if the active type exists) for the active one -/
+def variantOfD : String → Option (Nat × Option Nat)
+  | "sq" => some (3, some 3) | "sqc" => some (0, some 0)
+  | "symL" => some (3, some 0) | "symU" => some (1, some 0)
+  | "lo" => some (1, some 1) | "loc" => some (0, some 0) | "up" => some (0, some 0) | "upc" => some (0, some 0)
+  | "b00" => some (0, none) | "b11" => some (2, some 0) | "b22" => some (0, none)
+  | "b20" => some (0, none) | "b02" => some (0, none) | "b12" => some (1, some 0)
+  | "cb00" => some (0, none) | "cb11" => some (0, none) | "cb22" => some (0, none)
+  | "cb20" => some (0, none) | "cb02" => some (0, none) | "cb12" => some (1, none)
   | _ => none
 
+/-- the same for element type float (drv_matmul_flt3.cpp, drv_matmul_flt4.cpp) -/
+def variantOfF : String → Option (Nat × Option Nat)
+  | "sq" => some (0, some 0) | "symL" => some (1, none) | "symU" => some (0, none) | "lo" => some (0, none) | "upc" => some (0, none)
+  | "b11" => some (0, some 0) | "b12" => some (1, none) | "b20" => some (0, none) | "cb12" => some (0, none) | "cb02" => some (0, none)
+  | _ => none
+
+def variantOf (flt : Bool) (tag : String) : Option (Nat × Option Nat) := if flt then variantOfF tag else variantOfD tag
+
 /-- `S <a|p> <type> <n> <d:i0:i1>* [T|x2] : cells` -/
-def parseS (pw : Nat) (side : Buf) (h : List String) (vals : List Int) : Option Opd :=
+def parseS (pw : Nat) (flt : Bool) (side : Buf) (h : List String) (vals : List Int) : Option Opd :=
   match h with
   | _ :: a :: tag :: n :: ops =>
-    match Eng.ofTag tag, variantOf tag, n.toNat? with
-    | some eng, some (var, hasAct), some N =>
+    match Eng.ofTag tag, variantOf flt tag, n.toNat? with
+    | some eng, some (varP, varA), some N =>
       if a ≠ "a" ∧ a ≠ "p" then none else
       let act := a = "a"
-      if act ∧ ¬ hasAct then none else
+      if act ∧ varA.isNone then none else
+      let var : Nat := if act then varA.getD 0 else varP
       let off0 : Int := if N = 0 then 0 else eng.packOffset N
       let ncells : Int := if N = 0 then 0 else eng.dataSize N off0
       if (vals.length : Int) ≠ ncells then none else
@@ -277,7 +310,7 @@ def parseS (pw : Nat) (side : Buf) (h : List String) (vals : List Int) : Option 
       match go 0 N ops with
       | none => none
       | some (base, dim, tr, x2) =>
-        if (tr ∧ (act ∨ var % 2 = 0)) ∨ (x2 ∧ (act ∨ var / 2 % 2 = 0)) then none else
+        if (tr ∧ var % 2 = 0) ∨ (x2 ∧ var / 2 % 2 = 0) then none else
         let e := if tr then eng.T else eng
         let scale : Int := if x2 then 2 else 1
         let lval (i j : Nat) : Int := match e.cell off0 i j with
@@ -295,23 +328,42 @@ def parseS (pw : Nat) (side : Buf) (h : List String) (vals : List Int) : Option 
           | .sym l => .symm { base := base, lower := l, dim := dim, off := off0, mem := mem, buf := side }
           | .band r kl ku => .band { base := base, rowMajor := r, kl := kl, ku := ku, dim := dim, off := off0, mem := mem, buf := side }
           | _ => .mat (freshMat pw dim dim lval)
-        some { desc := d, act := act, kind := kind }
+        -- an active special matrix becomes Array<2,T,true>(S) (resp. Array<2,T,true>(2.0*S)): one statement per element, `1·S[i,j]`
+        -- (resp. `2·S[i,j]`) where the engine stores the element, an empty right-hand side where it is structurally zero
+        let f := packRowMajor pw dim dim
+        let conv : List (Stmt Int) :=
+          if act then convRecord f 0 dim dim (fun i j => match e.cell off0 i j with | some c => [(scale, ⟨side, base + c⟩)] | none => [])
+          else []
+        let promoted : Bool := act || x2 || (match e with | .sym _ => false | .band _ _ _ => false | _ => true)
+        some { desc := d, act := act, kind := kind, grad := { act := act, blk := if promoted then .T else side }, conv := conv,
+               tsize := if act then f.o0 * (dim : Int) else 0 }
     | _, _, _ => none
   | _ => none
 
-def parseOpd (pw : Nat) (side : Buf) (ws : List String) : Option Opd :=
+def parseOpd (pw : Nat) (flt : Bool) (side : Buf) (ws : List String) : Option Opd :=
   match splitColon ws with
   | none => none
   | some (h, vs) =>
     match parseVals vs, h with
     | some vals, "M" :: _ => parseM pw side h vals
     | some vals, "V" :: _ => parseV side h vals
-    | some vals, "FM" :: _ => parseF side h vals
-    | some vals, "FV" :: _ => parseF side h vals
-    | some vals, "S" :: _ => parseS pw side h vals
+    | some vals, "FM" :: _ => parseF flt side h vals
+    | some vals, "FV" :: _ => parseF flt side h vals
+    | some vals, "S" :: _ => parseS pw flt side h vals
     | _, _ => none
 
 /-! ### report -/
+
+/-- a gradient index as the harness prints it -/
+def grefStr (p : Ptr) : String :=
+  (match p.buf with | .L => "L+" | .R => "R+" | .C => "C+" | .T => "T+") ++ toString p.off
+
+def stmtStr (s : Stmt Int) : String :=
+  grefStr s.lhs ++ ":" ++ ",".intercalate (s.ops.map (fun p => toString p.1 ++ "*" ++ grefStr p.2))
+
+/-- the ` ; tape …` section: printed whenever the result is active -/
+def tapeStr (act : Bool) (stmts : List (Stmt Int)) : String :=
+  if act then " ; tape" ++ String.join (stmts.map (fun s => " " ++ stmtStr s)) else ""
 
 def ptrStr (p : Ptr) : String :=
   match p.buf with
@@ -352,24 +404,24 @@ def CallRep.str (c : CallRep) (L R : Desc) (ansCells : List Int) : String :=
     ",".intercalate (c.ptrs.map ptrStr) ++ ";" ++ ",".intercalate (c.touched.map rangeStr) ++
     ";x=" ++ toString c.info ++ ";in=" ++ (if ins then "ok" else "OUT") ++ "]"
 
-def repGemm (c : GemmCall Int) : CallRep :=
-  { routine := "dgemm", flags := tf c.args.ta ++ tf c.args.tb,
+def repGemm (pre : String) (c : GemmCall Int) : CallRep :=
+  { routine := pre ++ "gemm", flags := tf c.args.ta ++ tf c.args.tb,
     ints := [c.args.m, c.args.n, c.args.k, c.args.lda, c.args.ldb, c.args.ldc],
     ptrs := [c.pa, c.pb, ⟨.C, 0⟩], touched := [gemmReadA c.args, gemmReadB c.args, gemmWriteC c.args], info := gemmInfo c.args }
-def repGemv (c : GemvCall Int) : CallRep :=
-  { routine := "dgemv", flags := tf c.args.trans,
+def repGemv (pre : String) (c : GemvCall Int) : CallRep :=
+  { routine := pre ++ "gemv", flags := tf c.args.trans,
     ints := [c.args.m, c.args.n, c.args.lda, c.args.incx, c.args.incy],
     ptrs := [c.pa, c.px, c.py], touched := [gemvReadA c.args, gemvReadX c.args, gemvWriteY c.args], info := gemvInfo c.args }
-def repSymm (c : SymmCall Int) : CallRep :=
-  { routine := "dsymm", flags := (if c.args.left then "L" else "R") ++ (if c.args.upper then "U" else "L"),
+def repSymm (pre : String) (c : SymmCall Int) : CallRep :=
+  { routine := pre ++ "symm", flags := (if c.args.left then "L" else "R") ++ (if c.args.upper then "U" else "L"),
     ints := [c.args.m, c.args.n, c.args.lda, c.args.ldb, c.args.ldc],
     ptrs := [c.pa, c.pb, ⟨.C, 0⟩], touched := [symmReadA c.args, symmReadB c.args, symmWriteC c.args], info := symmInfo c.args }
-def repSymv (c : SymvCall Int) : CallRep :=
-  { routine := "dsymv", flags := (if c.args.upper then "U" else "L"),
+def repSymv (pre : String) (c : SymvCall Int) : CallRep :=
+  { routine := pre ++ "symv", flags := (if c.args.upper then "U" else "L"),
     ints := [c.args.n, c.args.lda, c.args.incx, c.args.incy],
     ptrs := [c.pa, c.px, ⟨.C, 0⟩], touched := [symvReadA c.args, symvReadX c.args, symvWriteY c.args], info := symvInfo c.args }
-def repGbmv (c : GbmvCall Int) : CallRep :=
-  { routine := "dgbmv", flags := tf c.args.trans,
+def repGbmv (pre : String) (c : GbmvCall Int) : CallRep :=
+  { routine := pre ++ "gbmv", flags := tf c.args.trans,
     ints := [c.args.m, c.args.n, c.args.kl, c.args.ku, c.args.lda, c.args.incx, c.args.incy],
     ptrs := [c.pa, c.px, c.py], touched := [gbmvReadA c.args, gbmvReadX c.args, gbmvWriteY c.args], info := gbmvInfo c.args }
 
@@ -393,63 +445,72 @@ def resStr1 (calls : List CallRep) (L R : Desc) (ans : Vec Int) : String :=
   " v=[" ++ ",".intercalate ((List.range ans.v.d).map (fun i => if bad then "?" else toString (ans.get i))) ++ "]"
 
 /-- the overload set of `matmul_` after `promote_array` -/
-def product (pw : Nat) (l r : Opd) : Option String :=
+def product (pw : Nat) (pre : String) (l r : Opd) : Option String :=
   let L := l.desc
   let R := r.desc
+  let act := l.act || r.act
+  let conv := l.conv ++ r.conv           -- at most one of the two operands is converted
+  let t := l.tsize + r.tsize
   match l.kind, r.kind with
   | .mat A, .mat B => some <| match matmulMM pw A B with
     | .error e => excStr e
-    | .ok o => resStr2 [repGemm o.call] L R o.ans
+    | .ok o => resStr2 [repGemm pre o.call] L R o.ans ++ tapeStr act (conv ++ matmulMMTape pw l.grad r.grad t A B)
   | .mat A, .vec x => some <| match matmulMV pw A x with
     | .error e => excStr e
-    | .ok o => resStr1 [repGemv o.call] L R o.ans
+    | .ok o => resStr1 [repGemv pre o.call] L R o.ans ++ tapeStr act (conv ++ matmulMVTape pw l.grad r.grad t A x)
   | .vec x, .mat B => some <| match matmulVM pw x B with
     | .error e => excStr e
-    | .ok o => resStr1 [repGemv o.call] L R o.ans
+    | .ok o => resStr1 [repGemv pre o.call] L R o.ans ++ tapeStr act (conv ++ matmulVMTape pw l.grad r.grad t x B)
   | .symm s, .vec x => some <| match matmulSymV l.act r.act s x with
     | .error e => excStr e
-    | .ok o => resStr1 [repSymv o.call] L R o.ans
+    | .ok o => resStr1 [repSymv pre o.call] L R o.ans ++ tapeStr act []
   | .symm s, .mat B => some <| match matmulSymM pw l.act r.act s B with
     | .error e => excStr e
-    | .ok o => resStr2 [repSymm o.call] L R o.ans
+    | .ok o => resStr2 [repSymm pre o.call] L R o.ans ++ tapeStr act []
   | .vec x, .symm s => some <| match matmulVSym l.act r.act x s with
     | .error e => excStr e
-    | .ok o => resStr1 [repSymv o.call] L R o.ans
+    | .ok o => resStr1 [repSymv pre o.call] L R o.ans ++ tapeStr act []
   | .mat A, .symm s => some <| match matmulMSym pw l.act r.act A s with
     | .error e => excStr e
-    | .ok o => resStr2 [repSymm o.call] L R o.ans
+    | .ok o => resStr2 [repSymm pre o.call] L R o.ans ++ tapeStr act []
   | .band b, .vec x => some <| match matmulBandV l.act b x with
     | .error e => excStr e
-    | .ok o => resStr1 [repGbmv o.call] L R o.ans
+    | .ok o => resStr1 [repGbmv pre o.call] L R o.ans ++ tapeStr act (conv ++ matmulBandVTape b r.grad x)
   | .band b, .mat B => some <| match matmulBandM pw l.act r.act b B with
     | .error e => excStr e
-    | .ok o => resStr2 (o.calls.map repGbmv) L R o.ans
+    | .ok o => resStr2 (o.calls.map (repGbmv pre)) L R o.ans ++ tapeStr act []
   | .vec x, .band b => some <| match matmulVBand r.act x b with
     | .error e => excStr e
-    | .ok o => resStr1 [repGbmv o.call] L R o.ans
+    | .ok o => resStr1 [repGbmv pre o.call] L R o.ans ++ tapeStr act (conv ++ matmulVBandTape l.grad x b)
   | .mat A, .band b => some <| match matmulMBand pw l.act r.act A b with
     | .error e => excStr e
-    | .ok o => resStr2 (o.calls.map repGbmv) L R o.ans
+    | .ok o => resStr2 (o.calls.map (repGbmv pre)) L R o.ans ++ tapeStr act []
   | _, _ => none
 
 def isPlainDense (ws : List String) : Bool :=
   match splitColon ws with
-  | some (h, _) => (h.head? = some "M" ∨ h.head? = some "V") ∧ h.getLast? ≠ some "x2"
+  | some (h, _) => (h.head? = some "M" ∨ h.head? = some "V") ∧ h.getLast? ≠ some "x2" ∧ h.getLast? ≠ some "xs"
   | none => false
 
 def step (s : St) (ws : List String) : St × String :=
   match ws with
   | ["cfg", p] => match p.toNat? with
-    | some pw => if pw = 0 then (s, "bad-op") else ({ pw := pw }, "cfg " ++ toString pw ++ " ok")
+    | some pw => if pw = 0 then (s, "bad-op") else ({ s with pw := pw }, "cfg " ++ toString pw ++ " ok")
     | none => (s, "bad-op")
+  | ["cfg", p, pf] => match p.toNat?, pf.toNat? with
+    | some pw, some pwf =>
+      if pw = 0 ∨ pwf = 0 then (s, "bad-op") else ({ pw := pw, pwf := pwf }, "cfg " ++ toString pw ++ " " ++ toString pwf ++ " ok")
+    | _, _ => (s, "bad-op")
   | c :: rest =>
-    if c ≠ "P" ∧ c ≠ "Q" then (s, "bad-op") else
+    if c ≠ "P" ∧ c ≠ "Q" ∧ c ≠ "Pf" ∧ c ≠ "Qf" then (s, "bad-op") else
+    let flt : Bool := c = "Pf" || c = "Qf"
+    let pw := if flt then s.pwf else s.pw
     match rest.span (· ≠ "|") with
     | (lw, _ :: rw) =>
       if ¬ (isPlainDense lw ∨ isPlainDense rw) then (s, "bad-op") else
-      match parseOpd s.pw .L lw, parseOpd s.pw .R rw with
+      match parseOpd pw flt .L lw, parseOpd pw flt .R rw with
       | some l, some r =>
-        match product s.pw l r with
+        match product pw (if flt then "s" else "d") l r with
         | some out => (s, "L " ++ l.desc.str ++ " ; R " ++ r.desc.str ++ " ; " ++ out)
         | none => (s, "bad-op")
       | _, _ => (s, "bad-op")
